@@ -320,6 +320,13 @@ impl UntypedHandle {
     pub(crate) fn write(&self, asset: CacheEntry) {
         self.inner.write(asset);
     }
+
+    /// Returns `true` if the value can be rewritten by hot-reloading.
+    #[cfg(feature = "hot-reloading")]
+    #[inline]
+    pub(crate) fn is_reloadable(&self) -> bool {
+        self.inner.dynamic.is_some()
+    }
 }
 
 impl fmt::Debug for UntypedHandle {
